@@ -157,6 +157,7 @@ def track_result(body, start_local, pol=+1, start_cls=None):
     that tests it.  pol=+1: the natural success of the value (Ok/Some/true) is required."""
     tr = Track()
     seen = set()
+    carriers = body.ret_carriers()
     work = deque([(start_local, pol, start_cls)])
     while work:
         l, p, forced = work.popleft()
@@ -164,7 +165,7 @@ def track_result(body, start_local, pol=+1, start_cls=None):
             continue
         seen.add((l, p))
         cls = forced or ty_class(body.lty(l))
-        if l == 0:
+        if l in carriers:
             tr.returned = True
             continue
         for (bi, si, how, payload) in body.uses(l):
@@ -187,7 +188,7 @@ def track_result(body, start_local, pol=+1, start_cls=None):
                     # a field of the checked value (e.g. tuple result) - not a test
                     continue
                 if k in ('use', 'cfd', 'ref', 'ptr'):
-                    if pl[0] == 0 and not pl[1]:
+                    if pl[0] in carriers and not pl[1]:
                         tr.returned = True
                     elif not pl[1]:
                         work.append((pl[0], p, forced if k != 'use' else forced))
@@ -223,7 +224,7 @@ def track_result(body, start_local, pol=+1, start_cls=None):
                 c, ai, place = payload
                 apol = adapter_polarity(c)
                 if apol is not None and ai == 0:
-                    if c.dest[0] == 0 and not c.dest[1]:
+                    if c.dest[0] in carriers and not c.dest[1]:
                         tr.returned = True
                     elif not c.dest[1]:
                         work.append((c.dest[0], p * apol, None))
@@ -252,12 +253,15 @@ def return_assigns(body, success='ok'):
     a success point is a dict {bb, kind: stmt|edge|ret, rv, to}.
     success kinds: 'ok' (Result/anyhow), 'some', 'true', 'false', 'any'."""
     succ, fail = [], set()
+    carriers = body.ret_carriers()
     for bi, b in enumerate(body.blocks):
         if b.cleanup:
             continue
         for (line, pl, rv) in b.stmts:
-            if pl[0] != 0 or pl[1]:
+            if pl[0] not in carriers or pl[1]:
                 continue
+            if rv[0] == 'use' and rv[1][0] in ('copy', 'move') and not rv[1][1][1] and rv[1][1][0] in carriers:
+                continue    # carrier-to-carrier move: classified at the carrier's own definition
             is_fail = False
             if success == 'ok':
                 if rv[0] == 'agg' and rv[2] == 'std::result::Result' and rv[3] == 1:
@@ -273,7 +277,7 @@ def return_assigns(body, success='ok'):
             else:
                 succ.append({'bb': bi, 'kind': 'stmt', 'rv': rv, 'line': line})
         t = b.term
-        if t[0] == 'call' and t[1].dest[0] == 0 and not t[1].dest[1]:
+        if t[0] == 'call' and t[1].dest[0] in carriers and not t[1].dest[1]:
             c = t[1]
             if any(glob_match('<* as std::ops::try_trait::FromResidual>::from_residual', n) or
                    n == 'std::ops::try_trait::FromResidual::from_residual' for n in c.names()):
@@ -492,7 +496,7 @@ class MPT:
                 via = cands[0].name
                 want_pol = +1
             tr = track_result(body, c.dest[0], want_pol) if not c.dest[1] else Track()
-            if c.dest[0] == 0 and not c.dest[1]:
+            if c.dest[0] in body.ret_carriers() and not c.dest[1]:
                 tr.returned = True
             site = {'fn': lf.name, 'line': c.line, 'callee': c.best(), 'via': via,
                     'discharged': tr.discharged(), 'escapes': tr.escapes[:4], 'bb': c.bb}
@@ -784,7 +788,10 @@ def capture_operands(closure_fn):
 def type_head(t):
     """Last path segment of a type, references and generics stripped: `&mithril::x::Foo<T>` -> Foo."""
     t = strip_refs(t)
-    t = t.split('<', 1)[0]
+    while t.startswith('['):
+        t = t[1:]
+        t = strip_refs(t)
+    t = t.split('<', 1)[0].split(';', 1)[0].rstrip(']')
     return t.rsplit('::', 1)[-1]
 
 
